@@ -266,6 +266,26 @@ def main(pid):
                     if not approx(got, base):
                         h.fail('relabel_invariant', {'Y': Y, 'X': X, 'Y2': Y2, 'X2': X2, 'c': c}, f'{base} vs {got}',
                                witness_class='selfpair_equal_sum' if (int(np.sum(X - Y)) == 0) != (int(np.sum(X2 - Y2)) == 0) else None)
+        # pipeline level: the batch coder must not merge categories (more than 2^15 distinct values in one batch) - an injective
+        # renaming of the raw values leaves every emitted score unchanged
+        import pandas as pd
+        import outrank.core_ranking as CR
+        from rank_common import InlinePool, Pbar, make_args
+        nb = 40000
+        ids = rng.permutation(nb) % 35000
+        lab = (ids % 7 < 3).astype(int) ^ (rng.random(nb) < 0.1)
+        frame = pd.DataFrame({'id': [f'u{int(v)}' for v in ids], 'label': [str(int(v)) for v in lab]})
+        renamed = pd.DataFrame({'id': [f'k{35000 - int(v):06d}' for v in ids], 'label': [('yes' if v else 'no') for v in lab]})
+        sc = []
+        for fr in (frame, renamed):
+            CR.GLOBAL_PRIOR_COMB_COUNTS.clear()
+            rows_ = CR.mixed_rank_graph(fr, make_args(heuristic='MI-numba-randomized', target_ranking_only='True'), InlinePool(), Pbar()).triplet_scores
+            sc.append({(a, b): float(s_) for a, b, s_ in rows_})
+        h.record(('pipeline-relabel', nb), True)
+        if set(sc[0]) != set(sc[1]) or any(not approx(sc[0][k_], sc[1][k_], 1e-5) for k_ in sc[0]):
+            h.fail('relabel_invariant', {'rows': nb, 'distinct_ids': 35000, 'renaming': 'u<i> -> k<35000-i>, 0/1 -> no/yes'},
+                   f'scores before {sc[0]} after renaming {sc[1]}')
+        h.bounded_note('injective renaming of the raw values of a 40000-row batch with 35000 distinct ids leaves the emitted scores unchanged', '1 batch', 1)
         h.bounded_note('injective relabeling of both sides leaves the real score unchanged (3 random relabelings per pair)',
                        'pairs as above', n_rel)
 
